@@ -50,6 +50,8 @@ def _found_branch(ctx):
 
 
 def r1_dispatch(ctx):
+    from . import C15 as _C15
+    _C15.r5_marker_stripping(ctx)   # the lookup of an existing node compares names with the clause markers removed, for every clause number (shared with C15.R5)
     C13.r4_merge_or_append(ctx)
     fn, body, orelse = _found_branch(ctx)
     stm = [norm(s) for s in body]
